@@ -29,6 +29,15 @@ def elem_order(eng, res, rule="R-ELEM-ORDER"):
            src(it) == "self._elements", f"iterates {src(it)}")
     recv_ok = isinstance(g.func.value, ast.Name) and isinstance(lp.target, ast.Name) and g.func.value.id == lp.target.id
     res.ob(rule, fi, "generate-on-loop-element", "each element's own generate is called", g, recv_ok and lp in cfg.enclosing_loops(g))
+    # every element exactly once: no early exit from the loop, the call lies on every path through the body
+    early = [n for n in own_nodes(lp) if isinstance(n, (ast.Break, ast.Return)) or (isinstance(n, ast.Continue))]
+    hn = cfg.node_of(lp)
+    gn = cfg.node_of(g)
+    starts = [d for d, l in cfg.succ[hn] if l == "T"]
+    skip = hn in cfg.reachable(starts, avoid_nodes={gn})
+    res.ob(rule, fi, "every-element-once", "every element is generated exactly once: no break / continue / return inside the loop, the call lies on every path through its body",
+           early[0] if early else lp, not early and not skip and not cfg.enclosing_loops(lp),
+           f"{'early exit at line ' + str(early[0].lineno) if early else 'an iteration can skip the element'}: later elements (suffix, following blocks) would be dropped")
     # prefix threading: first arg variable v; assigned back to v; v initialised from the caller's prefix
     a0 = g.args[0] if g.args else None
     st = g
